@@ -153,6 +153,8 @@ func buildOnce(in *input) (d digest) {
 			pkgs = nil
 		case "fmt":
 			pkgs = fmtOnly
+		case "alias":
+			pkgs = aliasPackages
 		}
 		p, err := scriggo.Build(in.fsys(), &scriggo.BuildOptions{Packages: pkgs, AllowGoStmt: true})
 		if err != nil {
@@ -193,7 +195,11 @@ func buildOnce(in *input) (d digest) {
 		}
 		return d
 	}
-	t, err := scriggo.BuildTemplate(in.fsys(), in.Main, &scriggo.BuildOptions{Packages: packages, Globals: globals(), AllowGoStmt: true})
+	tpkgs, tglobals := packages, globals()
+	if in.Natives == "alias" {
+		tpkgs, tglobals = aliasPackages, aliasGlobals()
+	}
+	t, err := scriggo.BuildTemplate(in.fsys(), in.Main, &scriggo.BuildOptions{Packages: tpkgs, Globals: tglobals, AllowGoStmt: true})
 	if err != nil {
 		return digest{Err: "error: " + err.Error()}
 	}
@@ -519,7 +525,7 @@ func run(c *hx.Ctx) error {
 	c.R = proto.NewRand(c.R.U64())
 	res := c.Res
 	inproc, procs := 8, 3
-	res.Rule = fmt.Sprintf("programs and templates of /repo/test/compare/testdata (single files, .dir programs and templates) and generated ones (package-level multi-value var declarations, many globals with initialisation dependencies, functions sharing a line, closures, a second package in the module, init functions; templates with macros, imports, extends, using/itea, global variables), each built %d times in this process and once in each of %d child processes, and random triples build A, build B, build A (A, B any two inputs) whose two A results must coincide; the declaration-order family (packages of constants, variables, types and functions, named or blank, with forward references between every pair of kinds: the matrix blank declaration A of kind k1 using a named D of kind k2 beside a second blank declaration B of kind k3 in the six source orders, random packages of 3-9 declarations, and a malformed stream - a name declared twice, a dependency cycle, an undeclared identifier), each package built 64 times in this process (thorough: 128) and, when valid Go (go/types), compared with the Lean model of the ordering (builds iff the model's order is resolvable; variables initialised in the model's order); the rebuild family (true/false/nil/iota used at a type the program defines and where the default type shows: 12 typed uses x 6 observations x 2 orders), each program built 3 times in a process of its own; a case is one input, distinct by source, non-trivial when it builds without error", inproc, procs)
+	res.Rule = fmt.Sprintf("programs and templates of /repo/test/compare/testdata (single files, .dir programs and templates) and generated ones (package-level multi-value var declarations, many globals with initialisation dependencies, functions sharing a line, closures, a second package in the module, init functions; templates with macros, imports, extends, using/itea, global variables), each built %d times in this process and once in each of %d child processes, and random triples build A, build B, build A (A, B any two inputs) whose two A results must coincide; the declaration-order family (packages of constants, variables, types and functions, named or blank, with forward references between every pair of kinds: the matrix blank declaration A of kind k1 using a named D of kind k2 beside a second blank declaration B of kind k3 in the six source orders, random packages of 3-9 declarations, and a malformed stream - a name declared twice, a dependency cycle, an undeclared identifier), each package built 64 times in this process (thorough: 128) and, when valid Go (go/types), compared with the Lean model of the ordering (builds iff the model's order is resolvable; variables initialised in the model's order); the rebuild family (true/false/nil/iota used at a type the program defines and where the default type shows: 12 typed uses x 6 observations x 2 orders), each program built 3 times in a process of its own; the alias family (one Go function, variable pointer, type and constant exported under several names, in two native packages and as template globals; programs and templates each naming one alias; every ordered pair of two names of one value plus random multi-value inputs), history [A, B] in a fresh process compared with A alone and B alone in fresh processes (error, disassembly, UsedVars, run output); a case is one input, distinct by source, non-trivial when it builds without error", inproc, procs)
 
 	// the site list and the model of the loop classes
 	if c.D != nil {
@@ -597,7 +603,7 @@ func run(c *hx.Ctx) error {
 	}
 
 	// C30_ONLY=<stream>[,<stream>…] (development aid): run only the named streams of
-	// corpus (corpus + generated inputs, in process, history triples, child processes), decl, rebuild
+	// corpus (corpus + generated inputs, in process, history triples, child processes), decl, rebuild, alias
 	want := func(stream string) bool {
 		only := os.Getenv("C30_ONLY")
 		return only == "" || strings.Contains(","+only+",", ","+stream+",")
@@ -607,6 +613,10 @@ func run(c *hx.Ctx) error {
 	var finishRebuild func(bool) error
 	if want("rebuild") {
 		finishRebuild = rebuildStream(c)
+	}
+	var finishAlias func() error
+	if want("alias") {
+		finishAlias = aliasStream(c)
 	}
 
 	// inputs
@@ -743,6 +753,11 @@ func run(c *hx.Ctx) error {
 	}
 	if finishRebuild != nil {
 		if err := finishRebuild(findingFails["history-universe-bool-rebuild"]); err != nil {
+			return err
+		}
+	}
+	if finishAlias != nil {
+		if err := finishAlias(); err != nil {
 			return err
 		}
 	}
